@@ -26,6 +26,10 @@ Abs(a)     == IF a >= 0 THEN a ELSE -a
 SumSeq(q)  == FoldLeft(LAMBDA acc, x : acc + x, 0, q)
 MaxSeq0(q) == FoldLeft(LAMBDA acc, x : Max2(acc, x), 0, q)
 PosOf(q, e) == CHOOSE i \in DOMAIN q : q[i] = e
+(* ascending sequence of a finite set of integers (linear in the set; the   *)
+(* CommunityModules SetToSortSeq enumerates all permutations)               *)
+RECURSIVE SortedSeqOf(_)
+SortedSeqOf(T) == IF T = {} THEN <<>> ELSE LET mn == Min(T) IN <<mn>> \o SortedSeqOf(T \ {mn})
 
 S(I) == 1 .. I.ns
 P(I) == 1 .. I.np
